@@ -266,7 +266,7 @@ func runC08(tier string) int {
 	if tier == "thorough" {
 		levels = []uint{0, 1, 2}
 	}
-	cases := genC08()
+	cases := append(genC08(), genC08RefPrim()...)
 	st := batch.Run(c, cases, batch.Opts{Prop: "C08", Family: "alias", Levels: levels, BatchSize: 10, Asan: true, Extra: func(r rxRun) string {
 		if v := memoryVerdictAsanOnly(r); v != "" {
 			return v
